@@ -1433,6 +1433,15 @@ class _Ctx:
                 return mk_cmp(_OPERATOR_CMP[opn], args[0], args[1])
             if opn in ("neg", "not_", "invert") and len(args) == 1:
                 return ("un", {"neg": "-", "not_": "not", "invert": "~"}[opn], args[0])
+        # TABLE.get(type(x), default)(args) / TABLE[type(x)](args) with TABLE a module-level dictionary keyed by classes: the chain of isinstance cases
+        if is_t(f, "call") and is_t(f[1], "attr") and f[1][2] == "get" and is_t(f[1][1], "global") and len(f[2]) == 2 and is_t(f[2][0], "call") and f[2][0][1] == G("type") and len(f[2][0][2]) == 1:
+            tbl = self._class_table(f[1][1])
+            if tbl is not None:
+                x = f[2][0][2][0]
+                out = self.call_value(f[2][1], args, kwargs)
+                for cname, fn_ in reversed(tbl):
+                    out = mk_phi(("isinst", x, cname), self.call_value(fn_, args, kwargs), out)
+                return out
         if is_t(f, "closure_maker") and len(args) == 1 and not kwargs:
             return ("ctor", "Closure", (f[1], args[0]), ())
         # Cls[T](...) is Cls(...)
@@ -1469,6 +1478,23 @@ class _Ctx:
             if is_t(inner, "global") and inner[1].endswith("incremental.incremental") or (is_t(inner, "global") and inner[1].split(".")[-1] in ("incremental", "stateful")):
                 return ("call", f, tuple(args), tuple(sorted(kwargs.items())))
         return mk_call(f, args, sorted(kwargs.items()))
+
+    def _class_table(self, g):
+        """[(class name, function term)] of a module-level `NAME = {Cls: fn, ...}` dictionary (None when g is not one)"""
+        name = g[1]
+        modpath, _, short = name.rpartition(".")
+        for m in self.ev.prog.modules.values():
+            if m.dotted == modpath and short in m.assigns and isinstance(m.assigns[short], ast.Dict):
+                d = m.assigns[short]
+                out = []
+                ctx = _Ctx(self.ev, m, None, self.depth + 1)
+                for k, v in zip(d.keys, d.values):
+                    kn = _dotted(k) if k is not None else None
+                    if not kn or kn.split(".")[-1] not in self.ev.prog.class_index:
+                        return None
+                    out.append((kn.split(".")[-1], ctx.expr(v, {})))
+                return out
+        return None
 
     def inline(self, clo: Closure, args, kwargs):
         ev = self.ev
